@@ -179,3 +179,7 @@ reg('C06', 'streams', 'rule_prefix_direction')    # the column is advanced only 
 reg('C17', 'bounds', 'rule_clamp_order', ('dev', 'release'))
 reg('C17', 'bounds', 'rule_slice_order', ('dev', 'release'))
 reg('C01', 'bounds', 'rule_cursor_forward')       # a cursor that moves back re-emits text: chunks no longer reassemble to source()
+# ---- round 9
+reg('C04', 'ropeinv', 'rule_last_piece')          # get_generated_source_info asks rope.ends_with('\n'): the end position a child reports
+reg('C10', 'ropeinv', 'rule_last_piece')          # the cached replay measures the cached rope
+reg('C13', 'ropeinv', 'rule_last_piece')          # wrappers that replay a rope report the same end as the wrapped source
